@@ -199,7 +199,10 @@ impl<T: DictionaryAccess> MorphemeList<T> {
 
     pub fn lookup(&mut self, query: &str, subset: InfoSubset) -> SudachiResult<usize> {
         let end_chars = {
-            let input = &mut self.input.borrow_mut().input;
+            let part = &mut *self.input.borrow_mut();
+            // on-demand splits of the found entries load their fields with this request
+            part.subset = subset;
+            let input = &mut part.input;
             input.reset().push_str(query);
             input.start_build()?;
             input.build(self.dict.grammar())?;
